@@ -14,7 +14,7 @@ crate, units, hs = args[0], args[1].split(","), args[2:]
 ws = vlib.Workspace("dev")
 try:
     check.weave_units(ws, units)
-    feats = registry.UNITS[units[0]].get("features")
+    feats = next((registry.UNITS[u].get("features") for u in units if registry.UNITS[u].get("crate") == crate), None)
     res, meta, raw = vlib.kani_run(ws, crate, hs, features=feats, timeout=timeout + 300, harness_timeout=timeout, solver=solver, modpath=os.environ.get("MODPATH"), c_lib=os.environ.get("CLIB"))
     print(meta)
     if not res:
